@@ -495,3 +495,39 @@ func H_C15_verbatim_special() {
 	}
 	vReach("end")
 }
+
+// ---- round 4 ----
+
+// messages that mix scripts: ASCII text, one symbolic two- or three-byte character and one symbolic three-byte
+// character in every order (the label is Chinese exactly when some character of the message is in
+// U+4E00..U+9FA5, wherever it stands and whatever precedes it: full-width brackets, accents, kana, Hangul)
+func H_C15_label_mixed_scripts() {
+	a := vndString("a", 3)
+	vAssume(len(a) >= 2)
+	vAssume(vValidUTF8(a))
+	vAssume(a[0] >= 0xC2) // a multi-byte character first (a third byte may be ASCII)
+	vAssume(vNoByte(a, ','))
+	vAssume(vNoByte(a, '\''))
+	vAssume(vNoByte(a, '|'))
+	b := vndStringN("b", 3)
+	vAssume(vValidUTF8(b))
+	vAssume(b[0] >= 0xE0)
+	var msg string
+	switch vndChoice("order", 4) {
+	case 0:
+		msg = a + b
+	case 1:
+		msg = "x" + a + "y" + b
+	case 2:
+		msg = b + a
+	case 3:
+		msg = a + " " + b + "!"
+	}
+	want := vC14Label(msg)
+	_, _, m1 := ParseValidNameKV("required|" + msg)
+	_, _, m2 := ParseValidNameKV("to=1~2|" + msg)
+	vAssert(m1 == want && m2 == want, "C15 label of a message that mixes scripts (parser)")
+	err := Var("", "required|"+msg)
+	vAssert(err != nil && err.Error() == "input \"\", "+want, "C15 label of a message that mixes scripts (clause)")
+	vReach("end")
+}
